@@ -377,7 +377,8 @@ def stage_crash(out, prop, tier, seed, d):
     """Posmint.tla's Crash action against the real application, reported under `prop` (C12)."""
     common.build_harness(["posdrv"])
     size = dict(SIZES[tier])
-    size.update(num=max(4, size["num"] // 6), maxbeh=max(150, size["maxbeh"] // 6))
+    # (thorough: every behaviour runs under all six pruning options, so fewer behaviours per configuration)
+    size.update(num=max(4, size["num"] // 6), maxbeh=max(150, size["maxbeh"] // (6 if tier == "quick" else 20)))
     seen = set()
     crashes = 0
     for i, c in enumerate(CRASH_CFGS):
